@@ -138,6 +138,51 @@ theorem C19_linear (x y : ZMod N → ℂ) (c : ℂ) :
       funext k; simp [_root_.map_smul]; ring
     rw [this, _root_.map_smul]
 
+/-- the analytic signal of a single complex exponential is that exponential times its weight -/
+theorem analytic_exp (m : ZMod N) :
+    analytic (fun n => (stdAddChar (m * n) : ℂ)) = fun n => hZ m * stdAddChar (m * n) := by
+  unfold analytic
+  have h1 : (fun k => hZ k * 𝓕 (fun n => (stdAddChar (m * n) : ℂ)) k)
+      = hZ m • 𝓕 (fun n => (stdAddChar (m * n) : ℂ)) := by
+    funext k
+    simp only [Pi.smul_apply, smul_eq_mul, Pb.Dft.dft_tone]
+    by_cases hk : k = m
+    · subst hk; simp
+    · simp [hk]
+  rw [h1, _root_.map_smul, ZMod.dft.symm_apply_apply]
+  rfl
+
+/-- **tones**: the real tone `2·Re(c·e^{2πi w n/N})` at a strictly positive frequency `w`
+(weight 2: `0 < w < N/2`, or `w = (N−1)/2` for odd `N`) has the analytic signal `2c·e^{2πi w n/N}`:
+the negative-frequency half is removed, the positive half doubled. -/
+theorem C19_tone (w : ZMod N) (hw : weightAt N w.val = 2) (c : ℂ) (n : ZMod N) :
+    analytic (fun n => c * stdAddChar (w * n) + conj c * stdAddChar (-w * n)) n
+      = 2 * c * stdAddChar (w * n) := by
+  have hwz : hZ w = 2 := by unfold hZ; rw [hw]; norm_num
+  have hnz : hZ (-w) = 0 := by have := hZ_sym w; rw [hwz] at this; linear_combination this
+  have hx : (fun n => c * (stdAddChar (w * n) : ℂ) + conj c * stdAddChar (-w * n))
+      = c • (fun n => (stdAddChar (w * n) : ℂ)) + conj c • (fun n => (stdAddChar (-w * n) : ℂ)) := by
+    funext k; simp
+  set e1 : ZMod N → ℂ := fun n => (stdAddChar (w * n) : ℂ) with he1
+  set e2 : ZMod N → ℂ := fun n => (stdAddChar (-w * n) : ℂ) with he2
+  have l1 := (C19_linear (c • e1) (conj c • e2) 0).1
+  have l2 := (C19_linear e1 e1 c).2
+  have l3 := (C19_linear e2 e2 (conj c)).2
+  have a1 : analytic e1 = fun n => hZ w * stdAddChar (w * n) := analytic_exp w
+  have a2 : analytic e2 = fun n => hZ (-w) * stdAddChar (-w * n) := analytic_exp (-w)
+  rw [hx, l1, l2, l3, a1, a2, hwz, hnz]
+  simp only [Pi.add_apply, Pi.smul_apply, smul_eq_mul, zero_mul, mul_zero, add_zero]
+  ring
+
+/-- … and after mixing with `exp(−iπ n/2)` and keeping the even samples, output sample `m` is
+`(−1)^m · 2c · e^{2πi w (2m)/N} = 2c · e^{2πi (w − N/4)(2m)/N}`: a complex tone at `w − N/4`
+cycles per `N` input samples. -/
+theorem C19_tone_mixed (w : ZMod N) (hw : weightAt N w.val = 2) (c : ℂ) (m : ℕ) :
+    Complex.exp (-(Complex.I * (Real.pi / 2)) * ((2 * m : ℕ) : ℂ))
+        * analytic (fun n => c * stdAddChar (w * n) + conj c * stdAddChar (-w * n)) ((2 * m : ℕ) : ZMod N)
+      = (-1) ^ m * (2 * c * stdAddChar (w * ((2 * m : ℕ) : ZMod N))) := by
+  rw [mix_factor_even, C19_tone w hw]
+
 /-- dtype rule -/
 theorem C19_dtype :
     outDtype "complex" = .error .valueError ∧ outDtype "float32" = .ok "complex64" ∧
